@@ -138,7 +138,18 @@ def check_timeout(case):
   vmode.setup()
   plan = {int(k): v for k, v in (case.get('plan') or {}).items()}
   stalled = any(isinstance(v, (list, tuple)) for v in plan.values())
-  s, res, exc = vmode.run(timeout_case(case), plan=plan, time_limit=1e6, watchdog_s=20.0, trace=bool(case.get('trace')), max_steps=60000)
+  s, res, exc = vmode.run(timeout_case(case), plan=plan, time_limit=1e6, watchdog_s=20.0, trace=bool(case.get('trace') or case.get('expect')),
+                          max_steps=60000)
+  if case.get('expect'):
+    # A stall is only meaningful at the place it was chosen for (after the body's outcome was published).  Yield
+    # indices can drift between runs (one-time initialisation executes extra lines); when the planned index is not the
+    # expected line of the expected thread, the case decides nothing.
+    at = {k: (tidx, tag) for k, tidx, tag in s.tags}
+    for k, (tidx, func, line) in case['expect'].items():
+      got = at.get(int(k))
+      if got is None or got[0] != tidx or not got[1] or tuple(got[1][1:3]) != (func, line):
+        r.classes = ['timeout', 'stall-drift']
+        return r, s
   t = case['t'] if case['t'] is not None else 180.0
   d = float('inf') if case['d'] == 'inf' else case['d']
   tag = 'pos:%s/kind:%s' % (case['pos'], case['kind'])
@@ -327,9 +338,17 @@ def enum_plans(n, bound, shard, nshards, choices=(0, 1)):
           yield dict(zip(ks, cs))
 
 
+_WARM = []
+
+
 def setup_lines():
   vmode.setup()
   V.monitor_lines(vmode.executor_code_objects())
+  if not _WARM:
+    # the first run in a process executes one-time initialisation lines; run one case so that yield indices recorded
+    # in plans and replay files refer to the steady state
+    _WARM.append(1)
+    check_timeout({'t': 0.5, 'd': 0.0, 'kind': 'returns', 'pos': 'teardown', 'rot': False})
 
 
 def plan(tier, seed):
@@ -383,11 +402,12 @@ def run_job(job, acct):
         pts = []
         if ends:
           _, k_end, phase_tidx = ends[-1]
+          where = {k: (tidx, tag[1], tag[2]) for k, tidx, tag in s0.tags if tag and tag[0] == 'line'}
           pts = [k for k, tidx, tag in s0.tags if tag and tag[0] == 'line' and (
               (tidx == phase_tidx and k > k_end and tag[1] in ('run', '_thread_finished', '_thread_exception', '__exit__')) or
               (tidx == 1 and tag[1] == 'join_or_die'))]
         for k in pts:
-          c2 = dict(case, plan={str(k): ['stall', tt + 10.0]})
+          c2 = dict(case, plan={str(k): ['stall', tt + 10.0]}, expect={str(k): list(where[k])})
           r2, _ = check_timeout(c2)
           r2.classes.append('stall')
           record(c2, r2)
